@@ -263,6 +263,22 @@ Fixpoint spec_alpha (fs : list fact) (ops : list aop) : list sx :=
   | AFilter fld v :: r => sxZs (map fact_id (scan fs fld v)) :: spec_alpha fs r
   end.
 
+(** well-formed inputs of the alpha-memory theorem *)
+(** float bit patterns that round-trip through the decoder (every pattern below 2^64 does; NaNs all
+    print "NaN") *)
+Fixpoint wfv (v : value) : Prop :=
+  match v with
+  | VFloat b => fl_is_nan b = true \/ bits_of_f (f_of_bits b) = b
+  | VArr l => (fix go (l : list value) : Prop := match l with [] => True | x :: r => wfv x /\ go r end) l
+  | _ => True
+  end.
+
+Definition wf_fact (f : fact) : Prop := forall k x, fget f k = Some x -> wfv x.
+
+Definition aop_wf (o : aop) : Prop :=
+  match o with AInsert f => wf_fact f | AFilter _ v => wfv v | _ => True end.
+
+
 (** beta: case (1 (op ...)); op = (0 ov i) add | (1 ov i) remove | (2 v) lookup *)
 Definition dec_bop (s : sx) : option bop :=
   match s with
